@@ -309,13 +309,13 @@ def gen_smiles(rng, ctx):
 PROFILES = {
     # relative weights of op kinds; per run a random subset is switched off (swarm)
     "C11": dict(set_preset=6, set_table=8, set_bad=4, get=1, get_preset=1, get_alphabet=2, mutate=4,
-                decode=30, encode=14, decode_fail=5, encode_fail=3, flood=2, observe=2, alpha_decode=0),
+                decode=30, encode=14, decode_fail=5, encode_fail=3, flood=2, observe=2, alpha_decode=0, util=2),
     "C12": dict(set_preset=8, set_table=10, set_bad=14, get=10, get_preset=8, get_alphabet=8, mutate=16,
-                decode=8, encode=4, decode_fail=3, encode_fail=1, flood=1, observe=6, alpha_decode=0),
+                decode=8, encode=4, decode_fail=3, encode_fail=1, flood=1, observe=6, alpha_decode=0, util=1),
     "C07": dict(set_preset=6, set_table=14, set_bad=6, get=1, get_preset=1, get_alphabet=10, mutate=6,
-                decode=4, encode=1, decode_fail=2, encode_fail=0, flood=1, observe=3, alpha_decode=14),
+                decode=4, encode=1, decode_fail=2, encode_fail=0, flood=1, observe=3, alpha_decode=14, util=1),
     "C06": dict(set_preset=7, set_table=12, set_bad=4, get=1, get_preset=0, get_alphabet=1, mutate=2,
-                decode=4, encode=40, decode_fail=1, encode_fail=4, flood=2, observe=1, alpha_decode=0),
+                decode=4, encode=40, decode_fail=1, encode_fail=4, flood=2, observe=1, alpha_decode=0, util=1),
 }
 FAULT_KINDS = ("set_bad", "mutate", "decode_fail", "encode_fail", "flood")
 
@@ -474,6 +474,11 @@ class _GenState:
         elif kind == "observe":
             self.handles.append((idx, "obs"))
             yield {"op": "observe"}
+        elif kind == "util":
+            # other public entry points in between (pure utilities; results recorded, not judged:
+            # they are history, not subject)
+            x = gen_selfies(rng, self.ctx(), rng.choice(("plain", "novel", "multi")))
+            yield {"op": "util", "fn": rng.choice(("split", "len", "alphabet_from", "to_encoding", "flat_hot")), "x": x}
         elif kind == "alpha_decode":
             yield {"op": "alpha_decode", "seed": rng.getrandbits(30),
                    "count": rng.choice((4, 8, 16, 30)),
